@@ -24,6 +24,12 @@ func (m *MTProto) sendPacket(request tl.Object, expectedTypes ...reflect.Type) (
 		return nil, errors.Wrap(err, "encoding request message")
 	}
 
+	// must write synchroniously, cuz seqno must be upper each request. msgID is generating under the same lock:
+	// server expects that msgID of each next written message is bigger than previous one, so order of generating
+	// ids must be the same as order of writing messages
+	m.seqNoMutex.Lock()
+	defer m.seqNoMutex.Unlock()
+
 	var (
 		data  messages.Common
 		msgID = utils.GenerateMessageId()
@@ -54,10 +60,6 @@ func (m *MTProto) sendPacket(request tl.Object, expectedTypes ...reflect.Type) (
 			MsgID: msgID,
 		}
 	}
-
-	// must write synchroniously, cuz seqno must be upper each request
-	m.seqNoMutex.Lock()
-	defer m.seqNoMutex.Unlock()
 
 	err = m.transport.WriteMsg(data, MessageRequireToAck(request))
 	if err != nil {
